@@ -770,7 +770,7 @@ class HelixAwkwardRecord(ak.Record):
         multi_trk = isinstance(self.pivot.x, ak.Array)
         res_dict, raw_shape = _awk_change_pivot(self, args, is_multi_trk=multi_trk)
         res = ak.Record(res_dict, with_name="Bes3Helix")
-        for count in raw_shape:
+        for count in reversed(raw_shape):  # innermost level first
             res = ak.unflatten(res, count)
         return res
 
@@ -854,7 +854,7 @@ class HelixAwkwardArray(ak.Array):
         """
         res_dict, raw_shape = _awk_change_pivot(self, args, is_multi_trk=True)
         res = ak.Array(res_dict, with_name="Bes3Helix")
-        for count in raw_shape:
+        for count in reversed(raw_shape):  # innermost level first
             res = ak.unflatten(res, count)
         return res
 
